@@ -70,4 +70,142 @@ theorem scanTokens_lines_sorted (src : Array Char) (profile : Profile)
     exact ⟨this.1, this.2⟩
   exact sorted_of_linesOK _ (scanTokensAcc_lines _ _ [] h0 h (scanTokens_fuel _)).1
 
+/-! ### `line_of` is the true line number -/
+
+theorem newlineStarts_length (a : Nat) (cs : List Char) : (newlineStarts a cs).length = cs.count '\n' := by
+  induction cs generalizing a with
+  | nil => simp [newlineStarts]
+  | cons c cs ih =>
+    simp only [newlineStarts]
+    by_cases hc : c = '\n'
+    · subst hc; simp [ih]
+    · simp [hc, ih]
+
+/-- in a list that is `≤ pos` on its first `k` entries and `> pos` after them, exactly `k` entries are `≤ pos` -/
+theorem filter_length_of_split (l : List Nat) (pos k : Nat) (hk : k ≤ l.length)
+    (h1 : ∀ j, j < k → ∀ x, l[j]? = some x → x ≤ pos) (h2 : ∀ j, k ≤ j → ∀ x, l[j]? = some x → pos < x) :
+    (l.filter (· ≤ pos)).length = k := by
+  induction l generalizing k with
+  | nil => simp at hk; simp [hk]
+  | cons a l ih =>
+    cases k with
+    | zero =>
+      have : ∀ x ∈ a :: l, ¬ (x ≤ pos) := by
+        intro x hx
+        obtain ⟨j, hj⟩ := List.getElem?_of_mem hx
+        have := h2 j (Nat.zero_le _) x hj
+        omega
+      rw [List.filter_eq_nil_iff.2 (by simpa using this)]
+      rfl
+    | succ k =>
+      have ha : a ≤ pos := h1 0 (by omega) a (by simp)
+      have := ih k (by simp at hk; omega)
+        (fun j hj x hx => h1 (j + 1) (by omega) x (by simpa using hx))
+        (fun j hj x hx => h2 (j + 1) (by omega) x (by simpa using hx))
+      simp [List.filter, ha, this]
+
+/-- **`line_of` is the true line number**: in every state with an exact table (every state the token loop
+    passes through), for every offset up to the scanner position, `line_of` answers one plus the number of
+    newlines of the text before that offset -/
+theorem lineOf_true (s : Scanner) (h : LinesOK s) (pos : Nat) (hp : pos ≤ s.pos) :
+    lineOfTable s.lines pos = 1 + (s.src.toList.take pos).count '\n' := by
+  obtain ⟨k, hk, h1, h2, e, _⟩ := lineOf_reachable s h pos
+  rw [e]
+  have hcount : (s.lines.toList.filter (· ≤ pos)).length = k := by
+    apply filter_length_of_split _ _ _ (by simpa using hk)
+    · intro j hj x hx
+      have hjs : j < s.lines.size := by omega
+      have := h1 j hj
+      rw [getElem!_pos s.lines j hjs] at this
+      have hx' : s.lines.toList[j]? = some s.lines[j] := by simp [hjs]
+      rw [hx'] at hx; cases hx; exact this
+    · intro j hj x hx
+      have hjs : j < s.lines.size := by
+        have := (List.getElem?_eq_some_iff.1 hx).1; simpa using this
+      have := h2 j hj hjs
+      rw [getElem!_pos s.lines j hjs] at this
+      have hx' : s.lines.toList[j]? = some s.lines[j] := by simp [hjs]
+      rw [hx'] at hx; cases hx; exact this
+  rw [h.2, filter_newlineStarts, newlineStarts_length] at hcount
+  simp only [Nat.sub_zero, List.take_take] at hcount
+  rw [Nat.min_eq_left hp] at hcount
+  omega
+
+theorem filter_eq_take_of_split (l : List Nat) (pos k : Nat) (hk : k ≤ l.length)
+    (h1 : ∀ j, j < k → ∀ x, l[j]? = some x → x ≤ pos) (h2 : ∀ j, k ≤ j → ∀ x, l[j]? = some x → pos < x) :
+    l.filter (· ≤ pos) = l.take k := by
+  induction l generalizing k with
+  | nil => simp
+  | cons a l ih =>
+    cases k with
+    | zero =>
+      have : ∀ x ∈ a :: l, ¬ (x ≤ pos) := by
+        intro x hx
+        obtain ⟨j, hj⟩ := List.getElem?_of_mem hx
+        have := h2 j (Nat.zero_le _) x hj
+        omega
+      rw [List.filter_eq_nil_iff.2 (by simpa using this)]
+      rfl
+    | succ k =>
+      have ha : a ≤ pos := h1 0 (by omega) a (by simp)
+      have := ih k (by simp at hk; omega)
+        (fun j hj x hx => h1 (j + 1) (by omega) x (by simpa using hx))
+        (fun j hj x hx => h2 (j + 1) (by omega) x (by simpa using hx))
+      simp [List.filter, ha, this]
+
+/-- **`line_info` in readable form** (C16): in every state with an exact table, for every offset up to the
+    scanner position, the column is the distance from the offset that follows the last newline before it (the
+    offset itself on the first line), and the line is the number of newlines before it — the true line minus
+    one — except on the first line, where it is 1 (known finding K2) -/
+theorem lineInfo_true (s : Scanner) (h : LinesOK s) (pos : Nat) (hp : pos ≤ s.pos) :
+    s.lineInfo pos = .ok (match (newlineStarts 0 (s.src.toList.take pos)).getLast? with
+      | none => (1, pos)
+      | some start => ((s.src.toList.take pos).count '\n', pos - start)) := by
+  obtain ⟨k, hk, h1, h2, _, e⟩ := lineOf_reachable s h pos
+  rw [e]
+  have hf : s.lines.toList.filter (· ≤ pos) = s.lines.toList.take k := by
+    apply filter_eq_take_of_split _ _ _ (by simpa using hk)
+    · intro j hj x hx
+      have hjs : j < s.lines.size := by omega
+      have := h1 j hj
+      rw [getElem!_pos s.lines j hjs] at this
+      have hx' : s.lines.toList[j]? = some s.lines[j] := by simp [hjs]
+      rw [hx'] at hx; cases hx; exact this
+    · intro j hj x hx
+      have hjs : j < s.lines.size := by
+        have := (List.getElem?_eq_some_iff.1 hx).1; simpa using this
+      have := h2 j hj hjs
+      rw [getElem!_pos s.lines j hjs] at this
+      have hx' : s.lines.toList[j]? = some s.lines[j] := by simp [hjs]
+      rw [hx'] at hx; cases hx; exact this
+  have hns : newlineStarts 0 (s.src.toList.take pos) = s.lines.toList.take k := by
+    rw [← hf, h.2, filter_newlineStarts]
+    simp only [Nat.sub_zero, List.take_take]
+    rw [Nat.min_eq_left hp]
+  have hcnt : (s.src.toList.take pos).count '\n' = k := by
+    rw [← newlineStarts_length 0, hns]; simp; omega
+  rw [hns]
+  by_cases hk0 : k = 0
+  · subst hk0; simp
+  · have hkl : k - 1 < s.lines.size := by omega
+    have hlast : (s.lines.toList.take k).getLast? = some s.lines[k - 1] := by
+      rw [List.getLast?_eq_getElem?]
+      simp only [List.length_take, Array.length_toList, Nat.min_eq_left hk]
+      rw [List.getElem?_take_of_lt (by omega)]
+      simp [hkl]
+    rw [hlast, if_neg hk0, getElem!_pos s.lines (k - 1) hkl, hcnt]
+
+/-- after a whole text: `line_of` is the true line number of every offset of the text -/
+theorem scanTokens_lineOf_true (src : Array Char) (profile : Profile)
+    (h : (scanTokens { src := src, profile := profile }).err = none) (pos : Nat) (hp : pos ≤ src.size) :
+    lineOfTable (scanTokens { src := src, profile := profile }).final.lines pos =
+      1 + (src.toList.take pos).count '\n' := by
+  have h0 : LinesOK ({ src := src, profile := profile } : Scanner) := by
+    have := linesOK_init src
+    exact ⟨this.1, this.2⟩
+  obtain ⟨hok, hsrc, hpos⟩ := scanTokensAcc_lines _ _ [] h0 h (scanTokens_fuel _)
+  have := lineOf_true _ hok pos (by rw [hpos]; exact hp)
+  rw [hsrc] at this
+  exact this
+
 end Gosyn.Props.LinesAll
